@@ -53,6 +53,9 @@ var callerBodies = []string{
 	"<title>{{template \"cell\" .}}</title", "<link rel=\"stylesheet\" href=\"{{template \"cell\" .}}\">", "<link rel=\"icon\" href=\"{{template \"cell\" .}}\">",
 	"<svg>{{template \"cell\" .}}</svg>", "{{if .C}}{{template \"cell\" .}}{{end}}",
 	"{{template \"cell\" .}}", "{{template \"cell\" .}}>done", "{{template \"cell\" .}}\">x", "<!-- off: {{template \"cell\" .}} -->",
+	// predefined escapers merged into the sanitizer chain, next to plain actions in the same contexts
+	"<a href=\"{{.X | urlquery}}\">l</a>{{template \"cell\" .}}", "{{.X | html}}{{template \"cell\" .}}", "<a href=\"{{.X}}\">l</a><a href=\"{{.Y | urlquery}}\">m</a>",
+	"<p>{{.X}}</p>{{.Y | html}}", "<a href=\"{{template \"cell\" .}}\">l</a><a href=\"{{.Y | urlquery}}\">m</a>", "<p title=\"{{.X | html}}\">{{template \"cell\" .}}</p>",
 }
 
 // directedHistory: define cell + three callers, then execute members in a random order with repetitions,
